@@ -319,6 +319,13 @@ def closest (a : Abs) (root : Root) (slot : Nat) : Ans :=
     | some s => .ref ⟨s, root⟩
     | none => .err
 
+/-- `CanonAtSlot(anchor, slot, withBlock)`: the node of the wanted kind at `slot` on the canonical chain (the
+transition ancestors of the head found from the first node of `anchor`, the head included): the empty-slot
+(pre-block) node for `withBlock = false`; for `withBlock = true` the block node, the zero reference ("nil") when the
+chain has only an empty-slot node there. Two documented special cases: at the first slot of the anchor the anchor
+node itself is the answer (an error when the pre-block node is asked for and the anchor is a block: that state is
+pruned), and for a slot AFTER the head the head is "the closest we have" (nothing exists at that slot yet),
+whatever `withBlock` says. At the slot of the head itself the kind is respected. -/
 def canonAt (a : Abs) (root : Root) (slot : Nat) (withBlock : Bool) : Ans :=
   match a.firstSlot root with
   | none => .err
@@ -332,7 +339,7 @@ def canonAt (a : Abs) (root : Root) (slot : Nat) (withBlock : Bool) : Ans :=
       match a.headFrom ⟨first, root⟩ with
       | none => .err
       | some h =>
-        if h.slot ≤ slot then .ref h else
+        if h.slot < slot then .ref h else
         let at_ := (a.tAncestors a.fuel h).filter (fun n => n.ref.slot = slot)
         if withBlock then
           match at_.find? (·.isBlock) with
@@ -350,16 +357,36 @@ def inSub (a : Abs) (anchor root : Root) : Ans :=
     | none => .inSub true false
   else .inSub true false
 
+/-- some block node has `root` as its parent root -/
+def hasChildBlock (a : Abs) (root : Root) : Bool := a.nodes.any (fun m => m.isBlock && m.parentRoot == root)
+
+/-- `Search(anchor, parentRoot, slot)` from the first node of a root: the block nodes in the fork-choice subtree of
+`anchor` that match the options — a given parent root and/or a given slot; with no option at all: the heads, i.e.
+the blocks without a child block (the source comments: "if it has no child, it's a head; if it has only empty
+slots as children, it's a head") — in insertion order, split into canonical (fork-choice ancestors or self of the
+head found from `anchor`) and the rest.
+
+From an anchor that is NOT the first node of its root (an empty-slot node after the block, or after the lowest
+node left by a prune) the answer is left unconstrained (`any`), because no contract explains what the code returns
+there: `inSubtree(anchorIndex, ·)` answers "transition descendant at a later slot", so a block proposed at the
+anchor's own slot on top of it is excluded (`anchor.Slot >= lookup.Slot`) while the descendants of that block are
+included (the parent walk reaches the anchor through it). Reading the anchor as "the chain with an empty slot
+here" (as pruning at an empty-slot checkpoint does, `inFinalized`) the descendants are wrong; reading it as "the
+pre-block state" the excluded block is wrong. The canonical flag is relative to `FindHead(anchor)`, which from
+such an anchor is the end of the anchor's own empty-slot chain (blocks hang from the FIRST node of their parent
+root), so every match is reported as non-canonical. The source gives no doc for this case (the interface comment
+is missing, `FindHead` calls the empty-slot handling "legacy"). -/
 def search (a : Abs) (anchor : NodeRef) (parentRoot : Option Root) (slot : Option Nat) : Ans :=
-  if parentRoot.isNone && slot.isNone then .any else
   match a.headFrom anchor with
   | none => .err
   | some h =>
     if a.firstSlot anchor.root ≠ some anchor.slot then .any else
     let cands := a.nodes.filter (fun n =>
       n.isBlock &&
-      (match parentRoot with | some p => n.parentRoot == p | none => true) &&
-      (match slot with | some s => n.ref.slot == s | none => true) &&
+      (if parentRoot.isNone && slot.isNone then !a.hasChildBlock n.ref.root
+       else
+        (match parentRoot with | some p => n.parentRoot == p | none => true) &&
+        (match slot with | some s => n.ref.slot == s | none => true)) &&
       a.fcAncestorOrSelf anchor a.fuel n.ref)
     let canon := cands.filter (fun n => a.fcAncestorOrSelf n.ref a.fuel h)
     let nonCanon := cands.filter (fun n => !a.fcAncestorOrSelf n.ref a.fuel h)
